@@ -10,7 +10,7 @@
    time, then id), [elect all epoch op now] the elected id (Panic below the
    minimum membership, id 0 for an operation that is not elected),
    [hour_of epoch ts] the hour of the epoch day. *)
-From Coq Require Import List ZArith NArith Bool.
+From Coq Require Import List ZArith NArith Bool Permutation.
 Require Import Mixin.Base.Res Mixin.Gen.Consts Mixin.Model.Election Mixin.Proofs.Election.
 Import ListNotations.
 Open Scope Z_scope.
@@ -126,6 +126,32 @@ Proof.
 Qed.
 Print Assumptions C29_operations_in_window.
 
+(* The same on every node.  storage.ReadAllNodes returns the records sorted by
+   timestamp only, equal-timestamp records in the iteration order of a Go map, so
+   two nodes may receive the same history in different orders; LoadConsensusNodes
+   re-sorts by (timestamp, id string).  The store keys a record by (timestamp,
+   signer) and the id is derived from the signer, so the (timestamp, id) pairs of
+   a history are pairwise distinct: [distinct_keys].  Under exactly that
+   guarantee every permutation of the record list loads to the same history,
+   hence to the same membership views, the same elected node and the same
+   removal candidate at every time. *)
+Theorem C29_same_on_every_node : forall recs recs' epoch op now,
+  Permutation recs recs' -> distinct_keys recs ->
+  load recs = load recs' /\
+  (forall accepted_only, nodes_list (load recs) now accepted_only = nodes_list (load recs') now accepted_only) /\
+  elect (load recs) epoch op now = elect (load recs') epoch op now /\
+  (forall node_id old, check_remove (load recs) epoch node_id now old = check_remove (load recs') epoch node_id now old).
+Proof.
+  intros recs recs' epoch op now Hp Hd. rewrite (load_perm recs recs' Hp Hd). repeat split.
+Qed.
+Print Assumptions C29_same_on_every_node.
+
+(* the sorted history is the unique sorted permutation (what the proof rests on) *)
+Theorem C29_sorted_order_unique : forall l l',
+  sorted l -> sorted l' -> Permutation l l' -> distinct_keys l -> l = l'.
+Proof. exact sorted_perm_unique. Qed.
+Print Assumptions C29_sorted_order_unique.
+
 (* ---- non-vacuity ---------------------------------------------------------- *)
 
 Definition ex_epoch : Z := 1551312000000000000.
@@ -159,3 +185,18 @@ Example C29_ex_hours :
   accept_timing (load (ex_recs ++ [mkrec 10 (ex_epoch + 40 * Consts.QOneDay) Pledging 10])) ex_epoch
     (ex_epoch + 40 * Consts.QOneDay + 13 * Consts.QHour) (Some 10%N) = Ok tt.
 Proof. vm_compute. repeat split. Qed.
+
+(* order independence: the reversed record list is a permutation with distinct
+   keys and loads to the same history; without distinct keys (two records of
+   one node at one timestamp) the loaded history does depend on the order, so
+   the hypothesis cannot be dropped *)
+Example C29_ex_order :
+  distinct_keys ex_recs /\ Permutation ex_recs (rev ex_recs) /\
+  load ex_recs = load (rev ex_recs) /\
+  (let a := mkrec 1 ex_epoch Accepted 1 in let b := mkrec 1 ex_epoch Removed 2 in
+   load [a; b] <> load [b; a]).
+Proof.
+  split; [apply distinct_keys_dec; vm_compute; reflexivity|].
+  split; [apply Permutation_rev|]. split; [vm_compute; reflexivity|].
+  vm_compute. discriminate.
+Qed.
